@@ -118,7 +118,8 @@ def rule_colamd_args(mod, rep):
     if f is None:
         return
     rep.scope([f.name])
-    rec = list(f.calls("colamd_recommended")); col = list(f.calls("colamd"))
+    rec = list(f.calls("colamd_recommended")) + list(f.calls("colamd_l_recommended"))      # _LONGINT builds use the long variants
+    col = list(f.calls("colamd")) + list(f.calls("colamd_l"))
     ok = bool(rec) and bool(col) and all(same_value(f, r.ops[1], c.ops[0]) and same_value(f, r.ops[2], c.ops[1]) for r in rec for c in col)
     rep.check(ok, "COLAMD-ARGS", "get_colamd#sizes", "workspace sized for the matrix that is ordered",
               "colamd_recommended and colamd are given rows/columns in different roles (workspace too small for wide matrices)", rec[0].loc if rec else f.file, f.name)
@@ -308,3 +309,333 @@ def rule_preset_joined(mod, rep):
         both = [s for s in sites if s[1] and s[2]]
         rep.check(bool(both), "PRESET", "%s#joined-slot" % f.name, "reservation for joined columns uses max(rs_nrow, colcnt[k])",
                   "no reservation combines the relaxed supernode's row count with the predicted column count: columns that join a relaxed supernode overrun their slot", f.file, f.name)
+
+
+# ---------------------------------------------------------------------------------------------------------------------------------
+# KERN-COL: the triangular solve and the matrix-vector product of one supernodal update address the same columns of the supernode
+# ---------------------------------------------------------------------------------------------------------------------------------
+_TRSV = {"trsv_": (4, 5, True), "lsolve": (2, 0, False)}
+_GEMV = {"gemv_": (4, 5, True), "matvec": (3, 0, False), "matvec2": (3, 0, False)}
+
+
+class _Poly(object):
+    """polynomials over opaque symbols: parameters by name, loads by address path, anything else by SSA id"""
+    def __init__(self, f):
+        self.f = f
+
+    def sym(self, name):
+        return {(name,): 1}
+
+    def of(self, o, depth=0):
+        from .layout import padd, pmul, pconst
+        f = self.f
+        o = strip_casts(f, o)
+        if o[0] == "c":
+            return pconst(o[1])
+        if o[0] == "a":
+            return self.sym(f.pname(o[1]))
+        if o[0] != "v" or depth > 24:
+            return self.sym("?%s" % (o,))
+        x = f.inst[o[1]]
+        if x.op in ("add", "sub", "mul"):
+            a = self.of(x.ops[0], depth + 1); b = self.of(x.ops[1], depth + 1)
+            if x.op == "mul":
+                return pmul(a, b)
+            return padd(a, b, 1 if x.op == "add" else -1)
+        if x.op == "load":
+            ps = sorted(fmt_path(p) for p in f.addr_paths(x))
+            # a local scalar whose address was taken: name it by its unique stored value
+            if ps and all(p[0][0] == "L" and len(p) == 1 for p in f.addr_paths(x)):
+                st = [s for s in f.insts() if s.op == "store" and f.addr_paths(s) == f.addr_paths(x)]
+                if len(st) == 1:
+                    return self.of(st[0].ops[0], depth + 1)
+            return self.sym("ld:" + "|".join(ps)) if ps else self.sym("v%d" % x.i)
+        return self.sym("v%d" % x.i)
+
+    def additive_leaves(self, o, sign=1, depth=0):
+        f = self.f
+        o = strip_casts(f, o)
+        if o[0] == "v" and depth < 24:
+            x = f.inst[o[1]]
+            if x.op == "add":
+                return self.additive_leaves(x.ops[0], sign, depth + 1) + self.additive_leaves(x.ops[1], sign, depth + 1)
+            if x.op == "sub":
+                return self.additive_leaves(x.ops[0], sign, depth + 1) + self.additive_leaves(x.ops[1], -sign, depth + 1)
+        return [(sign, o)]
+
+
+def _kernel_sites(mod, f):
+    out = []
+    for c in f.calls():
+        nm = c.callee or ""
+        for table, kind in ((_TRSV, "tri"), (_GEMV, "mv")):
+            for suf, (ka, kl, byref) in table.items():
+                if len(nm) > 1 and nm[1:] == suf and nm[0] in "sdcz":
+                    out.append((c, kind, ka, kl, byref))
+    return out
+
+
+def rule_kernel_columns(mod, rep):
+    from .layout import padd, pfmt
+    rep.rule("KERN-COL", "supernodal update kernels: the matrix operand of the matrix-vector product (the rectangle below) starts in the same column of the supernode as the operand "
+             "of the triangular solve it follows - the multiples of the leading dimension in the two operand offsets are equal polynomials", floor=20)
+    for f in mod.funcs.values():
+        if not (f.name.startswith("p") and "gstrf_" in f.name and ("bmod" in f.name)):
+            continue
+        sites = _kernel_sites(mod, f)
+        if not sites:
+            continue
+        if not mod.callers.get(f.name):
+            rep.note("KERN-COL: %s has no caller in this configuration (GEMV2 variant) - not analysed" % f.name)
+            continue
+        rep.scope([f.name])
+        P = _Poly(f)
+        info = []
+        for (c, kind, ka, kl, byref) in sites:
+            A = strip_casts(f, c.ops[ka])
+            if A[0] != "v" or f.inst[A[1]].op != "getelementptr":
+                rep.brk("KERN-COL %s: matrix operand of %s at line %s is not an element address" % (f.name, c.callee, c.ln)); continue
+            g = f.inst[A[1]]
+            idx = [s["v"] for s in g.gep if s["k"] == "idx"]
+            if len(idx) != 1:
+                rep.brk("KERN-COL %s: operand address of %s has %d index steps" % (f.name, c.callee, len(idx))); continue
+            if byref:
+                ldp = strip_casts(f, c.ops[kl])
+                st = [s for s in f.insts() if s.op == "store" and strip_casts(f, s.ops[1]) == ldp]
+                lds = {tuple(sorted(P.of(s.ops[0]).items())) for s in st}
+                if len(lds) != 1:
+                    rep.brk("KERN-COL %s: leading dimension of %s at line %s has %d definitions" % (f.name, c.callee, c.ln, len(lds))); continue
+                ld = dict(lds.pop())
+            else:
+                ld = P.of(c.ops[kl])
+            cof = {}
+            for (sg, leaf) in P.additive_leaves(idx[0]):
+                if leaf[0] == "v" and f.inst[leaf[1]].op == "mul":
+                    m = f.inst[leaf[1]]
+                    for k in (0, 1):
+                        if P.of(m.ops[k]) == ld:
+                            cof = padd(cof, P.of(m.ops[1 - k]), sg)
+                            break
+            info.append((c, kind, cof))
+        tris = [i for i in info if i[1] == "tri"]
+        for (c, kind, cof) in info:
+            if kind != "mv":
+                continue
+            # the triangular solve this product follows: the nearest one that reaches it ... any with equal column offset
+            ok = any(t[2] == cof for t in tris)
+            rep.check(ok, "KERN-COL", "%s#%s@%d" % (f.name, c.callee, sum(1 for z in info if z[1] == "mv" and z[0].i <= c.i)),
+                      "column offset ld*(%s) matches a triangular solve" % pfmt(cof),
+                      "matrix-vector operand is at column offset ld*(%s) but the triangular solves of this routine are at %s: the product uses other columns of the supernode than the solve"
+                      % (pfmt(cof), ", ".join("ld*(%s)" % pfmt(t[2]) for t in tris) or "-"), "%s:%s" % (f.file, c.ln), f.name)
+
+
+# ---------------------------------------------------------------------------------------------------------------------------------
+# SBND-TEST: every reader of the H-partition marks agrees with ?PresetMap on what starts an H-supernode
+# ---------------------------------------------------------------------------------------------------------------------------------
+_PRED = {"eq": lambda a, b: a == b, "ne": lambda a, b: a != b, "sgt": lambda a, b: a > b, "sge": lambda a, b: a >= b, "slt": lambda a, b: a < b, "sle": lambda a, b: a <= b,
+         "ugt": lambda a, b: a > b, "uge": lambda a, b: a >= b, "ult": lambda a, b: a < b, "ule": lambda a, b: a <= b}
+
+
+def _is_super_bnd_load(f, L):
+    if L.op != "load" or not L.ty.startswith("i"):
+        return False
+    for p in f.addr_paths(L):
+        if len(p) >= 3 and p[-1] == ("i",) and p[-2] == ("*",) and p[-3][0] == "f" and p[-3][2] == "part_super_h":
+            return True
+        if len(p) == 2 and p[-1] == ("i",) and p[0][0] == "A" and f.pname(p[0][1]) == "super_bnd":
+            return True
+    return False
+
+
+def rule_super_bnd_test(mod, rep):
+    rep.rule("SBND-TEST", "part_super_h[j] holds the width (>= 1) of the H-supernode that starts at column j and 0 elsewhere; ?PresetMap reserves a separate slot for every start, "
+             "width 1 included (w = super_bnd[j]; j += w). Every test of a super_bnd[] element in the factorization therefore has to separate 0 from all widths >= 1", floor=8)
+    n = 0
+    for f in mod.funcs.values():
+        if not (f.name.startswith("p") and "gstrf" in f.name):
+            continue
+        for L in f.insts():
+            if not _is_super_bnd_load(f, L):
+                continue
+            for u in f.uses.get(L.i, []):
+                tests = []
+                if u.op == "icmp":
+                    tests.append(u)
+                elif u.op in ("sext", "zext", "trunc"):
+                    tests += [x for x in f.uses.get(u.i, []) if x.op == "icmp"]
+                for t in tests:
+                    ops = [strip_casts(f, o) for o in t.ops]
+                    side = 0 if (ops[0][0] == "v" and ops[0][1] == L.i) else 1
+                    c = ops[1 - side]
+                    if c[0] != "c":
+                        continue                      # compared with another quantity (PresetMap's maxsup split): not a start test
+                    rep.scope([f.name])
+                    pr = _PRED.get(t.pred)
+                    ev = (lambda v: pr(v, c[1])) if side == 0 else (lambda v: pr(c[1], v))
+                    vals = [ev(v) for v in (0, 1, 2, 3, 1 << 20)]
+                    ok = pr is not None and vals[0] != vals[1] and len(set(vals[1:])) == 1
+                    n += 1
+                    rep.check(ok, "SBND-TEST", "%s#super_bnd-test@%s" % (f.name, t.ln), "test separates 0 from every width >= 1 (icmp %s %d)" % (t.pred, c[1]),
+                              "the test 'super_bnd[j] %s %d' treats a width-1 H-supernode start like an interior column: the column is merged into the preceding supernode, whose "
+                              "preallocated slot does not cover it" % (t.pred, c[1]), "%s:%s" % (f.file, t.ln), f.name)
+
+
+# ---------------------------------------------------------------------------------------------------------------------------------
+# LINK-ORDER: list walks over an index-linked array read the forward link of a node before the node's link cell is overwritten
+# ---------------------------------------------------------------------------------------------------------------------------------
+def _scalar_cell(f, o):
+    """the scalar variable (static / global / address-taken local) an index is loaded from"""
+    o = strip_casts(f, o)
+    if o[0] == "v" and f.inst[o[1]].op == "load":
+        ps = f.addr_paths(f.inst[o[1]])
+        if len(ps) == 1:
+            p = list(ps)[0]
+            if len(p) == 1 and p[0][0] in ("L", "G"):
+                return p
+    return None
+
+
+def _forwarded(f, S, L, ap, g):
+    """the load L must return the value stored by S: S dominates L and nothing between them writes the array, the index variable, or calls out"""
+    if not f.dominates(S, L):
+        return False
+    r = f.reach([S], stop=lambda y: y.i == L.i or y.i == S.i)
+    if L.i not in r:
+        return False
+    for k in f.insts():
+        if k.i in r and k.i not in (S.i, L.i):
+            if k.op == "call" and not (k.callee or "").startswith("llvm.dbg"):
+                return False
+            if k.op == "store" and ((f.addr_paths(k) & ap) or g in f.addr_paths(k)):
+                return False
+    return True
+
+
+def rule_link_order(mod, rep, files=("mmd.c",), floor=4):
+    rep.rule("LINK-ORDER", "minimum-degree list walks (cursor N, node M = N, advance N = link[M]): a store to link[M] in the same loop never feeds the advancing load - "
+             "the forward link is read before the node's link cell is reused for the node number / another list", floor=floor)
+    for f in mod.funcs.values():
+        if (f.file or "").split("/")[-1] not in files:
+            continue
+        cells = {}
+        for x in f.insts():
+            if x.op in ("load", "store"):
+                idx = gep_index(f, x.ops[0] if x.op == "load" else x.ops[1])
+                if idx is None:
+                    continue
+                g = _scalar_cell(f, idx)
+                if g is not None:
+                    cells.setdefault((f.addr_paths(x), g), []).append(x)
+        loops = f.loops()
+        for (ap, g), xs in sorted(cells.items(), key=lambda kv: min(x.i for x in kv[1])):
+            for L in [x for x in xs if x.op == "load"]:
+                # the advancing load: its value is stored into a scalar N from which g (M) is copied, or into g itself
+                N = None
+                for u in f.uses.get(L.i, []):
+                    while u.op in ("sext", "zext", "trunc") and f.uses.get(u.i):
+                        u = f.uses[u.i][0]
+                    if u.op == "store" and strip_casts(f, u.ops[0]) in (["v", L.i], ("v", L.i)):
+                        ps = f.addr_paths(u)
+                        if len(ps) == 1 and len(list(ps)[0]) == 1 and list(ps)[0][0][0] in ("L", "G"):
+                            N = list(ps)[0]
+                if N is None:
+                    continue
+                copies = N == g or any(st.op == "store" and g in f.addr_paths(st) and _scalar_cell(f, st.ops[0]) == N for st in f.insts())
+                if not copies:
+                    continue
+                for S in [x for x in xs if x.op == "store"]:
+                    common = [h for h, body in loops if S.bb.id in body and L.bb.id in body]
+                    if not common:
+                        continue
+                    rep.scope([f.name])
+                    bad = _forwarded(f, S, L, ap, g)
+                    rep.check(not bad, "LINK-ORDER", "%s#%s:store@%s/advance@%s" % (f.name, fmt_paths(f, ap), S.ln, L.ln),
+                              "the advancing load at line %s is not fed by the store at line %s" % (L.ln, S.ln),
+                              "the cursor is advanced through %s (line %s) after line %s overwrote that very cell: the walk continues from the stored value, not along the list"
+                              % (fmt_paths(f, ap), L.ln, S.ln), "%s:%s" % (f.file, L.ln), f.name)
+
+
+# ---------------------------------------------------------------------------------------------------------------------------------
+# REL-AFTER: what a thread still writes after it released a column (whole program: the release may sit in any function)
+# ---------------------------------------------------------------------------------------------------------------------------------
+_L_INDEX = {"xsup", "xsup_end", "supno", "xlsub", "xlsub_end", "xlusup", "xlusup_end"}
+_L_BODY = {"lsub", "lusup"}
+# the one routine that may touch subscript/value storage after a release: it reorders rows of *descendant* supernodes, guarded by ispruned[] (C03 O6)
+_PRUNE_OK = {"pxgstrf_pruneL"}
+
+
+def _glu_fields(paths_or_descs):
+    out = set()
+    for p in paths_or_descs:
+        for st in p:
+            if isinstance(st, tuple) and len(st) >= 3 and st[0] == "f" and st[1] in ("GlobalLU_t", "struct.GlobalLU_t"):
+                out.add(st[2])
+    return out
+
+
+def _continuation(mod, f, S):
+    """instructions the releasing thread may still execute for the same task after S: the rest of the current iteration of every loop around S (not the
+    following iterations - they work on other columns) and whatever follows those loops, up to the next scheduler call or the function's exit"""
+    loops = sorted([(h, body) for h, body in f.loops() if S.bb.id in body], key=lambda hb: len(hb[1]))
+    sched = {c.i for c in f.calls("pxgstrf_scheduler")}
+    r = set()
+    starts = [S]
+    first = True
+    for (h, body) in loops:
+        hdr = f.blocks[h].insts[0].i
+        r |= f.reach(starts, stop=lambda x: x.i == hdr or x.i in sched, include_start=not first)
+        first = False
+        if any(f.inst[i].bb.id in body for i in sched):
+            starts = []            # the task loop itself: the next iteration is another task
+            break
+        starts = [t.insts[0] for b in body for t in f.blocks[b].succ if t.id not in body]
+    if starts:
+        r |= f.reach(starts, stop=lambda x: x.i in sched, include_start=not first)
+    exits = any(f.inst[i].op == "ret" for i in r)
+    return r, exits
+
+
+def rule_release_after(mod, rep):
+    from .. import effects
+    E = effects.get(mod)
+    rep.rule("REL-AFTER", "after a store of 0 to spin_locks[c] (in whatever function it sits) the releasing thread does not write the index arrays of L any more for that task "
+             "(xsup, xsup_end, supno, xlsub, xlsub_end, xlusup, xlusup_end), and touches lsub/lusup only through pxgstrf_pruneL: a consumer that was waiting on column c "
+             "reads exactly these arrays as soon as the flag drops", floor=8)
+    sites = []
+    for f in mod.funcs.values():
+        for S in f.insts():
+            if S.op == "store" and is_const(S.ops[0], 0) and addr_is_elem_of(f, S, "spin_locks"):
+                sites.append((f, S))
+    for n, (f0, S0) in enumerate(sites):
+        rep.scope([f0.name])
+        bad = []
+        seen = set()
+        work = [(f0, S0, 0)]
+        regions = 0
+        while work:
+            f, S, d = work.pop()
+            if (f.name, S.i) in seen or d > 4:
+                continue
+            seen.add((f.name, S.i))
+            r, exits = _continuation(mod, f, S)
+            regions += 1
+            for i in sorted(r):
+                x = f.inst[i]
+                if x.i == S.i:
+                    continue
+                if x.op == "store":
+                    fl = _glu_fields(f.addr_paths(x))
+                    for nm in sorted(fl & (_L_INDEX | _L_BODY)):
+                        bad.append("%s:%s stores into %s[]" % (f.name, x.ln, nm))
+                elif x.op == "call" and x.callee in mod.funcs:
+                    fl = _glu_fields([w[2] for w in E.W.get(x.callee, ()) if w[0] in ("A", "G")])
+                    hit = fl & _L_INDEX
+                    if x.callee not in _PRUNE_OK:
+                        hit |= fl & _L_BODY
+                    for nm in sorted(hit):
+                        bad.append("%s:%s calls %s which may write %s[]" % (f.name, x.ln, x.callee, nm))
+            if exits and not f.name.endswith("gstrf_thread"):
+                for c in mod.callers.get(f.name, []):
+                    work.append((c.fn, c, d + 1))
+        rep.check(not bad, "REL-AFTER", "%s#release@%s" % (f0.name, S0.ln), "nothing written to L's index arrays in the %d continuation region(s)" % regions,
+                  "column released before its supernode's bookkeeping is complete: " + "; ".join(bad[:4]), S0.loc, f0.name)
